@@ -443,6 +443,8 @@ def run(ctx):
                 run_pattern(ctx, n, renumber(adj, perm), rng.sample(FORMS, 2), cases, meta, seen, kind + "+renumbered")
     # 4. sparse input with stored zeros represents the same pattern (separate stream)
     explicit_zero_stream(ctx)
+    # 5. hardening audit: dress/dtype, state and call order, aliasing, optional arguments, boundaries, exceptions
+    harden_stream(ctx, cases, meta, seen)
     # ---------------- Coq: repository-logic model on SciPy's outputs, validity of those outputs, spec-level model
     ctx.count("coq_distinct_cases", len(cases))
     bad = ctx.coq_check("check_case", IMPORTS, "gcase", "check_case", cases, chunk=400 if thorough else 150,
@@ -453,6 +455,238 @@ def run(ctx):
             parts[nm] = ctx.coq_eval(IMPORTS, "%s %s" % (nm, cases[i]), preamble="Open Scope nat_scope.")[-40:]
         ctx.mismatch("C03.Model.check_case (repo logic on SciPy outputs / validity / spec-level model) vs DiGraph+MarkovChain",
                      meta[i], None, parts)
+
+
+KEYS = ("scc", "sink", "num_scc", "num_sink", "is_sc", "period", "aper", "cyclic")
+
+
+def interleaved_pattern(rng):
+    """two recurrent classes with interleaved numbering (evens / odds), a transient class with >= 2 states"""
+    m = rng.randrange(2, 4)
+    A, B = [2 * i for i in range(m)], [2 * i + 1 for i in range(m)]
+    t = rng.randrange(2, 4)
+    T = list(range(2 * m, 2 * m + t))
+    n = 2 * m + t
+    adj = [[] for _ in range(n)]
+    for cl in (A, B, T):
+        for a, u in enumerate(cl):
+            adj[u].append(cl[(a + 1) % len(cl)])
+    adj[T[0]].append(rng.choice(A))
+    adj[T[-1]].append(rng.choice(B))
+    if rng.random() < 0.5:
+        adj[rng.choice(A)].append(rng.choice(A))
+    return n, [sorted(set(r)) for r in adj]
+
+
+def harden_stream(ctx, cases, meta, seen):
+    from scipy import sparse
+    from quantecon import DiGraph, MarkovChain
+    rng = ctx.rng
+
+    def guarded(inp, f):
+        try:
+            return f()
+        except Exception as ex:      # class 6: an exception on a valid input is an oracle failure
+            ctx.fail("exception", "exception on a valid input: " + repr(ex)[:200], inp, repr(ex), None)
+            return None
+
+    def dense(n, adj, dtype=int):
+        A = np.zeros((n, n), dtype=dtype)
+        for u in range(n):
+            for v in adj[u]:
+                A[u, v] = 1
+        return A
+
+    def sub(o):
+        return {k: o[k] for k in KEYS}
+
+    pats = []
+    for _ in range(6):
+        pats.append(interleaved_pattern(rng))
+    for kind in ("transient_two_recurrent", "periodic", "products", "bipartite_like", "selfloop_in_cycle"):
+        pats.append(planted(rng, kind))
+    for _ in range(6):
+        n = rng.randrange(2, 9)
+        pats.append((n, random_pattern(rng, n)))
+    pats.append((1, [[0]]))
+    objs = []
+    for n, adj in pats:
+        # the reference object is checked by the oracle and by the Coq model
+        run_pattern(ctx, n, adj, ["dg_dense", "mc_dense"], cases, meta, seen, "harden_reference")
+        A = dense(n, adj)
+        inp0 = {"n": n, "adj": adj, "origin": "harden"}
+        ref = guarded(inp0, lambda: sub(digraph_outputs(DiGraph(A))))
+        if ref is None:
+            continue
+        # ---- class 1: dress / dtype / layout / sparse format; class 4: optional arguments given explicitly
+        big = np.zeros((2 * n, 2 * n), dtype=int)
+        big[::2, ::2] = A
+        dresses = {"list": A.tolist(), "int32": A.astype(np.int32), "uint8": A.astype(np.uint8), "bool": A.astype(bool),
+                   "float32": A.astype(np.float32), "float64": A.astype(float), "F_order": np.asfortranarray(A),
+                   "noncontiguous_view": big[::2, ::2], "np.matrix_like_2d_list_of_arrays": [r for r in A]}
+        for fmt in ("csr", "csc", "coo", "lil"):
+            dresses["sparse:" + fmt] = getattr(sparse, fmt + "_matrix")(A)
+            dresses["sparse:" + fmt + ":float32"] = getattr(sparse, fmt + "_matrix")(A.astype(np.float32))
+        for name, M in dresses.items():
+            snap = M.copy() if hasattr(M, "copy") and not isinstance(M, list) else [list(map(int, r)) for r in M]
+            kw = rng.choice([{}, {"weighted": False, "node_labels": None}, {"weighted": False}, {"node_labels": None}])
+            wflag = rng.choice([False, True]) if ("float" in name or name.startswith("sparse")) else False
+            if wflag:
+                kw = dict(kw, weighted=True)
+            o = guarded(dict(inp0, dress=name, kwargs=str(kw)), lambda: sub(digraph_outputs(DiGraph(M, **kw))))
+            ctx.count("dress:" + name.split(":float32")[0])
+            ctx.count("optional:" + ("explicit_defaults" if kw else "omitted"))
+            ctx.case(("harden_dress", n, tuple(map(tuple, adj)), name, str(sorted(kw))), nontrivial=n >= 2)
+            if o is not None and o != ref:
+                ctx.fail("dress", "result depends on the container/dtype/format of the adjacency matrix", dict(inp0, dress=name, kwargs=str(kw)), o, ref)
+            same = (abs(M - snap).nnz == 0 and M.nnz == snap.nnz and M.dtype == snap.dtype) if sparse.issparse(M) else \
+                   (np.array_equal(np.asarray(M), np.asarray(snap)))
+            if not same:
+                ctx.fail("argument_modified", "adjacency argument modified", dict(inp0, dress=name), None, None)
+        # MarkovChain with P given as nested lists / tuples / float32 / bool / every sparse format
+        if all(adj):
+            W = A / A.sum(axis=1, keepdims=True)
+            onehot = all(len(r) == 1 for r in adj)
+            mdress = {"list": W.tolist(), "tuple": tuple(map(tuple, W.tolist())), "F_order": np.asfortranarray(W),
+                      "rows_of_larger_array": np.vstack([W, W])[:n]}
+            if all(len(r) in (1, 2, 4, 8) for r in adj):
+                mdress["float32"] = W.astype(np.float32)
+            if onehot:
+                mdress["bool"] = A.astype(bool)
+                mdress["int32"] = A.astype(np.int32)
+            for fmt in ("csr", "csc", "coo", "lil"):
+                mdress["sparse:" + fmt] = getattr(sparse, fmt + "_matrix")(W)
+            mref = guarded(inp0, lambda: mc_outputs(MarkovChain(W)))
+            for name, M in mdress.items():
+                kw = rng.choice([{}, {"state_values": None}])
+                o = guarded(dict(inp0, dress="mc:" + name), lambda: mc_outputs(MarkovChain(M, **kw)))
+                ctx.count("dress:mc:" + name)
+                ctx.case(("harden_mc_dress", n, tuple(map(tuple, adj)), name), nontrivial=n >= 2)
+                if o is not None and mref is not None and o != mref:
+                    ctx.fail("dress", "MarkovChain result depends on the container/dtype/format of P", dict(inp0, dress="mc:" + name), o, mref)
+        # ---- labels in several dresses
+        labs = rng.sample(range(100, 200), n)
+        for lname, L in (("list", labs), ("tuple", tuple(labs)), ("int32", np.array(labs, dtype=np.int32)),
+                         ("float64", np.array(labs, dtype=float)), ("str", np.array(["s%d" % x for x in labs]))):
+            g = guarded(dict(inp0, labels=lname), lambda: DiGraph(A, node_labels=L))
+            ctx.count("dress:labels:" + lname)
+            if g is None:
+                continue
+            arr = np.asarray(L)
+            got = guarded(dict(inp0, labels=lname), lambda: [c.tolist() for c in g.strongly_connected_components])
+            if got is not None and got != [arr[c].tolist() for c in ref["scc"]]:
+                ctx.fail("labels", "labelled components are not labels[indices]", dict(inp0, labels=lname), got, None)
+        objs.append((n, adj, A, ref))
+    # ---- class 2: several objects alive at once, lazy attributes read in random order, repeatedly
+    attrs = {"scc": lambda g: tolists(g.strongly_connected_components_indices),
+             "sink": lambda g: tolists(g.sink_strongly_connected_components_indices),
+             "num_scc": lambda g: int(g.num_strongly_connected_components),
+             "num_sink": lambda g: int(g.num_sink_strongly_connected_components),
+             "is_sc": lambda g: bool(g.is_strongly_connected)}
+    def per(g):
+        try:
+            return int(g.period)
+        except NotImplementedError:
+            return -1
+    def cyc(g):
+        try:
+            return tolists(g.cyclic_components_indices)
+        except NotImplementedError:
+            return None
+    attrs["period"] = per
+    attrs["cyclic"] = cyc
+    live = [(n, adj, DiGraph(A), ref) for (n, adj, A, ref) in objs]
+    reads = [(i, a) for i in range(len(live)) for a in attrs] * 2
+    rng.shuffle(reads)
+    for i, a in reads:
+        n, adj, g, ref = live[i]
+        inp = {"n": n, "adj": adj, "seq": "interleaved_reads", "attr": a}
+        v = guarded(inp, lambda: attrs[a](g))
+        ctx.count("seq:interleaved_read")
+        if v != ref[a] and not (v is None and ref[a] is None):
+            ctx.fail("state", "attribute differs when objects are reused / read in another order", inp, v, ref[a])
+        # class 3: the returned arrays are not views of internal state: scribbling on them changes nothing
+        if a in ("scc", "sink", "cyclic") and v:
+            raw = {"scc": lambda: g.strongly_connected_components_indices, "sink": lambda: g.sink_strongly_connected_components_indices,
+                   "cyclic": lambda: g.cyclic_components_indices}[a]()
+            for c in raw:
+                c[...] = -7
+            v2 = attrs[a](g)
+            ctx.count("alias:scribble_on_result")
+            if v2 != ref[a]:
+                ctx.fail("alias", "result of a previous call aliases internal state", dict(inp, seq="scribble"), v2, ref[a])
+    # MarkovChain: period before classes, cyclic before anything, labelled after unlabelled, several alive at once
+    mcs = []
+    for (n, adj, A, ref) in objs:
+        if all(adj):
+            W = A / A.sum(axis=1, keepdims=True)
+            mcs.append((n, adj, W, MarkovChain(W), mc_outputs(MarkovChain(W))))
+    mattrs = {"mc_period": lambda m: int(m.period), "mc_aper": lambda m: bool(m.is_aperiodic),
+              "scc": lambda m: tolists(m.communication_classes_indices), "sink": lambda m: tolists(m.recurrent_classes_indices),
+              "is_sc": lambda m: bool(m.is_irreducible), "num_scc": lambda m: int(m.num_communication_classes),
+              "num_sink": lambda m: int(m.num_recurrent_classes)}
+    def mcyc(m):
+        try:
+            return tolists(m.cyclic_classes_indices)
+        except NotImplementedError:
+            return None
+    mattrs["cyclic"] = mcyc
+    reads = [(i, a) for i in range(len(mcs)) for a in mattrs] * 2
+    rng.shuffle(reads)
+    for i, a in reads:
+        n, adj, W, m, mref = mcs[i]
+        inp = {"n": n, "adj": adj, "seq": "mc_interleaved_reads", "attr": a}
+        if rng.random() < 0.15:
+            guarded(inp, lambda: m.simulate(5, random_state=1))
+            guarded(inp, lambda: m.stationary_distributions)
+            ctx.count("seq:simulate_between_reads")
+        v = guarded(inp, lambda: mattrs[a](m))
+        ctx.count("seq:mc_interleaved_read")
+        if v != mref[a] and not (v is None and mref[a] is None):
+            ctx.fail("state", "MarkovChain attribute differs when the object is reused / read in another order", inp, v, mref[a])
+    # ---- class 2: attribute re-assignment: node_labels / state_values set after the lazy attributes exist
+    for (n, adj, A, ref) in objs[:8]:
+        l1, l2 = rng.sample(range(100, 200), n), rng.sample(range(300, 400), n)
+        g = DiGraph(A, node_labels=l1)
+        _ = g.strongly_connected_components, g.sink_strongly_connected_components
+        g.node_labels = l2
+        ctx.count("seq:reassign_node_labels")
+        got = [c.tolist() for c in g.strongly_connected_components], [c.tolist() for c in g.sink_strongly_connected_components]
+        fresh = DiGraph(A, node_labels=l2)
+        exp = [c.tolist() for c in fresh.strongly_connected_components], [c.tolist() for c in fresh.sink_strongly_connected_components]
+        if got != exp:
+            ctx.fail("stale_node_labels", "labelled components ignore re-assigned node_labels", {"n": n, "adj": adj, "seq": "reassign_node_labels"}, got, exp)
+        g.node_labels = None
+        if tolists(g.strongly_connected_components) != ref["scc"]:
+            ctx.fail("stale_node_labels", "node_labels=None not honoured after re-assignment", {"n": n, "adj": adj, "seq": "reassign_node_labels"}, None, None)
+        if all(adj):
+            W = A / A.sum(axis=1, keepdims=True)
+            m = MarkovChain(W, state_values=l1)
+            _ = m.communication_classes, m.recurrent_classes
+            m.state_values = l2
+            ctx.count("seq:reassign_state_values")
+            fresh = MarkovChain(W, state_values=l2)
+            got = [c.tolist() for c in m.communication_classes], [c.tolist() for c in m.recurrent_classes]
+            exp = [c.tolist() for c in fresh.communication_classes], [c.tolist() for c in fresh.recurrent_classes]
+            if got != exp:
+                ctx.fail("stale_state_values", "labelled classes keep the old state_values after re-assignment",
+                         {"n": n, "adj": adj, "seq": "reassign_state_values"}, got, exp)
+    # ---- class 5/6: documented errors are raised as ValueError
+    bad_calls = {"digraph_nonsquare": lambda: DiGraph(np.ones((2, 3))),
+                 "digraph_labels_length": lambda: DiGraph(np.eye(3), node_labels=[1, 2]),
+                 "mc_nonsquare": lambda: MarkovChain(np.ones((2, 3)) / 3),
+                 "mc_negative": lambda: MarkovChain(np.array([[1.5, -0.5], [0.5, 0.5]])),
+                 "mc_rowsum": lambda: MarkovChain(np.array([[0.5, 0.4], [0.5, 0.5]])),
+                 "mc_state_values_length": lambda: MarkovChain(np.eye(2), state_values=[1, 2, 3])}
+    for name, f in bad_calls.items():
+        ctx.count("error:" + name)
+        try:
+            f()
+            ctx.fail("missing_error", "documented ValueError not raised", {"call": name}, None, "ValueError")
+        except ValueError:
+            pass
+        except Exception as ex:
+            ctx.fail("missing_error", "wrong exception type", {"call": name}, repr(ex), "ValueError")
 
 
 def explicit_zero_stream(ctx):
